@@ -38,6 +38,19 @@ pub fn upsert_instance(state: &mut WarpState, instance: WarpInstance, store: Gra
     state.upsert_instance(instance, store);
 }
 
+/// Ids of every instance present in `state`, in map order.
+#[must_use]
+pub fn warp_ids(state: &WarpState) -> Vec<crate::ident::WarpId> {
+    state.iter_instances().map(|(id, _)| *id).collect()
+}
+
+/// Ids of every store present in `state`, in map order (equals [`warp_ids`] on
+/// states built through ops).
+#[must_use]
+pub fn store_ids(state: &WarpState) -> Vec<crate::ident::WarpId> {
+    state.iter_stores().map(|(id, _)| *id).collect()
+}
+
 /// Legacy (store-walking) state root of an arbitrary state.
 #[must_use]
 pub fn legacy_state_root(state: &WarpState, root: &NodeKey) -> Hash {
